@@ -101,11 +101,22 @@ _DIV_PROBES = [(0, 1), (1, 3), (7, 2), (10, 10), (3, 1000), (2 ** 60 + 1, 3), (1
 def _is_division_call(n, module) -> bool:
     """`f(a, b)` with f a plain function of the module under test that computes a / b: equal to true division on a probe
     grid and ZeroDivisionError for a zero denominator (it may only differ where `a / b` itself leaves the float range)"""
-    if not (isinstance(n, ast.Call) and isinstance(n.func, ast.Name) and len(n.args) == 2 and not n.keywords):
+    if not (isinstance(n, ast.Call) and len(n.args) == 2 and not n.keywords):
         return False
     import types
-    f = getattr(module, n.func.id, None)
-    if not isinstance(f, types.FunctionType) or getattr(f, "__module__", None) != module.__name__:
+    if isinstance(n.func, ast.Name):
+        f = getattr(module, n.func.id, None)
+        if not isinstance(f, types.FunctionType) or getattr(f, "__module__", None) != module.__name__:
+            return False
+    elif isinstance(n.func, ast.Attribute) and isinstance(n.func.value, ast.Name) and n.func.value.id in ("self", "cls", "ATP_Store"):
+        # the same helper kept as a (static) method of the class: looked up on a throw-away instance
+        try:
+            f = getattr(module.ATP_Store(budget=1, silent=True), n.func.attr, None)
+        except Exception:  # noqa
+            return False
+        if not callable(f) or getattr(f, "__module__", None) != module.__name__:
+            return False
+    else:
         return False
     try:
         if any(type(f(a, b)) is not float or f(a, b) != a / b for a, b in _DIV_PROBES):
